@@ -2,14 +2,17 @@
    date formats, each with the prediction of the extracted model (Model/Determ.v, Model/DateFmt.v).
 
    Streams
-     gen / fixed            inside the side conditions of C03_oracle_independent: one predicted output (the model is
-                            evaluated under three oracle codes, which must agree), or unmodelled (oracle only)
+     gen / fixed            the model's single predicted output (evaluated under three oracle codes, which must agree;
+                            should they differ -- only possible when a repair is undone and a flag of the model flips --
+                            the case carries the set of alternatives instead), or unmodelled (oracle only)
+     regress:<class>        the inputs of the classes that were found and repaired (hash-duplicate-key 0b86a90,
+                            key-string-collision 4c440c3, toplevel-address f21c703), now with the model's single prediction
      oracle-only            constructs outside the modelled fragment (fmt printing of maps, json_encode, dump, cycle,
-                            in, include with a map, imported macros, date filter): repetition oracle only
-     known:<class>          inputs outside the side conditions: hash-duplicate-key, key-string-collision (the model
-                            gives the set of outputs over all oracle codes), toplevel-address, nested-pointer
-                            (address text cannot be predicted: outputs are compared after masking hexadecimal numbers)
-     date-exhaustive / date-random / date-filter   format strings with the model's conversion
+                            in, include with a map, imported macros, date filter, struct-keyed maps): repetition oracle only
+     known:<class>          nested-pointer (address text cannot be predicted: outputs are compared after masking
+                            hexadecimal numbers, and against the model's output with the address masked) and
+                            merge-filter-key-collision (the model gives the set of outputs over all oracle codes)
+     date-exhaustive / date-random / date-escapes / date-filter   format strings with the model's conversion
    Every random choice comes from the one rng. *)
 open Util
 open Model
@@ -82,12 +85,9 @@ let oracle (code : int list) = dt_const_oracle (List.map nat_of_int code)
 type pred = POut of string | PErr | PUnmodelled
 let pred_of = function Ok o -> POut (s_of o) | Err _ -> PErr | OutOfFuel | Unmodelled -> PUnmodelled
 let render_now code ctx ns = pred_of (dt_render_now fuel (oracle code) al0 ctx ns)
-let render_flag gm code ctx ns = pred_of (dt_render_ctx gm fuel (oracle code) al0 ctx ns)
+let render_flag gm mu code ctx ns = pred_of (dt_render_ctx gm mu fuel (oracle code) al0 ctx ns)
 
 let codes3 r = [ []; [ 1; 2; 3; 1; 0; 2 ]; List.init 8 (fun _ -> rint r 7) ]
-
-(* all permutation codes for lists of up to n elements (Lehmer digits) *)
-let rec all_codes n = if n <= 0 then [ [] ] else List.concat_map (fun c -> List.init n (fun i -> i :: c)) (all_codes (n - 1))
 
 let pred_fields = function
   | POut o -> [ "exp", JS (hex o) ]
@@ -126,13 +126,23 @@ let emit_render oc stream ?(tpls = []) ?(extra = []) (src : string) (ctx : (byte
                  "tpls", JL (List.map (fun (n, s) -> JL [ JS (hex n); JS (hex s) ]) tpls);
                  "ctx", ctx_json ctx; "maxmap", JI maxmap ] @ pred [] @ extra))
 
+let uniq l = List.sort_uniq compare l
+
+(* all permutation codes for lists of up to n elements (Lehmer digits) *)
+let rec all_codes n = if n <= 0 then [ [] ] else List.concat_map (fun c -> List.init n (fun i -> i :: c)) (all_codes (n - 1))
+
+let maxmap_of ctx ns =
+  max (List.fold_left (fun a (_, v) -> max a (max_map_entries v)) 0 ctx) (List.fold_left (fun a n -> max a (max_hash_entries_n n)) 0 ns)
+
+let alts_fields ctx ns =
+  let outs = uniq (List.filter_map (fun c -> match render_now c ctx ns with POut o -> Some o | _ -> None) (all_codes 4)) in
+  [ "alts", JL (List.map (fun o -> JS (hex o)) outs) ]
+
 let emit_model oc stream r ctx ns =
   let preds = List.map (fun c -> render_now c ctx ns) (codes3 r) in
-  (match preds with
-   | p :: rest -> if List.exists (fun q -> q <> p) rest then failwith ("c03: the model is oracle dependent on a generated case: " ^ pp_nodes ns)
-   | [] -> ());
-  let mm = max (List.fold_left (fun a (_, v) -> max a (max_map_entries v)) 0 ctx) (List.fold_left (fun a n -> max a (max_hash_entries_n n)) 0 ns) in
-  emit_render oc stream (pp_nodes ns) ctx (fun _ -> pred_fields (List.hd preds)) mm
+  let agree = match preds with p :: rest -> not (List.exists (fun q -> q <> p) rest) | [] -> true in
+  emit_render oc stream (pp_nodes ns) ctx
+    (fun _ -> if agree then pred_fields (List.hd preds) else alts_fields ctx ns) (maxmap_of ctx ns)
 
 (* ---------------------------------------------------------------- random contexts *)
 let skeys = [| "a"; "b"; "c"; "d"; "aa"; "B"; "10"; "9"; "1"; "z"; "k1"; "k2"; "Zed"; "ab" |]
@@ -159,7 +169,15 @@ let rec gen_map r depth : value =
       let ks = distinct r n skeys in
       VMap (MAny, List.map (fun k -> (VStr (b k), gen_any_value r depth)) ks)
   | 4 -> VMap (MStrStr, List.map (fun k -> (VStr (b k), VStr (b (pick r svals)))) (distinct r n skeys))
-  | 5 | 6 -> VMap (MIntStr, List.map (fun k -> (VInt (z_of_int k), VStr (b (pick r svals)))) (distinct r n ikeys))
+  | 5 -> VMap (MIntStr, List.map (fun k -> (VInt (z_of_int k), VStr (b (pick r svals)))) (distinct r n ikeys))
+  | 6 ->
+      (* map[interface{}]interface{}: int and string keys together, string forms pairwise different, now and then large *)
+      let n = if rint r 3 = 0 then 8 + rint r 5 else n in
+      let ks = distinct r n [| "a"; "b"; "c"; "d"; "aa"; "B"; "z"; "k1"; "k2"; "Zed"; "ab"; "10"; "9"; "1"; "100"; "33"; "7"; "21"; "2"; "0" |] in
+      VMap (MAny, List.map (fun k ->
+        ((if k.[0] >= '0' && k.[0] <= '9' && rbool r then VInt (z_of_int (int_of_string k)) else VStr (b k)), gen_scalar r)) ks)
+      |> (fun m -> match m with VMap (_, kvs) when List.for_all (fun (k, _) -> is_vstr k) kvs && kvs <> [] ->
+                     VMap (MAny, (VInt (z_of_int 5), VStr (b "five")) :: kvs) | m -> m)
   | _ -> VMap (MStrInt, List.map (fun k -> (VStr (b k), VInt (z_of_int (rrange r 0 50)))) (distinct r n skeys))
 and gen_any_value r depth : value =
   if depth <= 0 then gen_scalar r
@@ -169,8 +187,10 @@ and gen_any_value r depth : value =
     | _ -> gen_scalar r
 and gen_list r depth : value =
   let n = rint r 5 in
-  match rint r 4 with
+  match rint r 6 with
   | 0 -> VList (LStrings, List.init n (fun _ -> VStr (b (pick r svals))))
+  | 1 -> VList (LInts, List.init n (fun _ -> VInt (z_of_int (pick r ikeys))))
+  | 2 -> VList (LAny, List.init n (fun _ -> VInt (z_of_int (pick r ikeys))))
   | _ -> VList (LAny, List.init n (fun _ -> if depth > 0 && rint r 5 = 0 then gen_map r (depth - 1) else gen_scalar r))
 
 let gen_ctx r : (bytes * value) list =
@@ -315,14 +335,9 @@ let fixed_templates : node list list = [
 let iface_map = VMap (MAny, [ (VInt (z_of_int 1), VStr (b "int")); (VStr (b "1"), VStr (b "str")); (VInt (z_of_int 2), VStr (b "two")); (VStr (b "a"), VStr (b "A")) ])
 let iface_map2 = VMap (MAny, [ (VStr (b "10"), VInt (z_of_int 1)); (VInt (z_of_int 10), VInt (z_of_int 2)); (VInt (z_of_int 9), VInt (z_of_int 3)); (VStr (b "9"), VInt (z_of_int 4)) ])
 
-let uniq l = List.sort_uniq compare l
-
-let emit_alts oc stream ctx ns ~(demanded : pred option) =
+let emit_alts oc stream ctx ns =
   (* the outputs of the faithful model over all oracle codes of length 4 with digits below 4 *)
-  let outs = uniq (List.filter_map (fun c -> match render_now c ctx ns with POut o -> Some o | _ -> None) (all_codes 4)) in
-  let mm = max (List.fold_left (fun a (_, v) -> max a (max_map_entries v)) 0 ctx) (List.fold_left (fun a n -> max a (max_hash_entries_n n)) 0 ns) in
-  emit_render oc stream (pp_nodes ns) ctx
-    (fun _ -> [ "alts", JL (List.map (fun o -> JS (hex o)) outs) ] @ (match demanded with Some (POut o) -> [ "demanded", JS (hex o) ] | _ -> [])) mm
+  emit_render oc stream (pp_nodes ns) ctx (fun _ -> alts_fields ctx ns) (maxmap_of ctx ns)
 
 let dup_templates : node list list = [
   [ NPrint (filt (EHash [ (lit_s "a", lit_i 1); (lit_s "a", lit_i 2) ]) "first" []) ];
@@ -331,6 +346,13 @@ let dup_templates : node list list = [
   [ kv_loop (EHash [ (lit_s "1", lit_s "string key"); (lit_i 1, lit_s "int key") ]) ];                 (* both keys become the string 1 *)
   [ kv_loop (filt (var "m") "merge" [ EHash [ (lit_s "a", lit_i 7); (lit_s "a", lit_i 8) ] ]) ];
   [ kv_loop (EHash [ (var "s", lit_i 1); (lit_s "x", lit_i 2) ]) ];                                     (* a computed key equal to a literal one (s = x) *)
+]
+
+let merge_collide_templates : node list list = [
+  [ NPrint (filt (filt (var "m") "merge" []) "first" []) ];
+  [ kv_loop (filt (var "m") "merge" [ EHash [ (lit_s "zz", lit_i 0) ] ]) ];
+  [ kv_loop (filt (var "n") "merge" [ var "m" ]) ];
+  [ NPrint (filt (filt (filt (var "m") "merge" [ var "m" ]) "keys" []) "join" [ lit_s "," ]); txt "|"; NPrint (filt (filt (var "m") "merge" [ var "n" ]) "length" []) ];
 ]
 
 let collide_templates : node list list = [
@@ -351,24 +373,37 @@ let raw oc stream ?(tpls = []) ?(extra = []) src ctx =
   let mm = List.fold_left (fun a (_, v) -> max a (max_map_entries v)) 0 ctx in
   emit_render oc stream ~tpls ~extra src ctx (fun _ -> []) mm
 
-let address_cases oc =
-  let top = "known:toplevel-address" and nested = "known:nested-pointer" in
-  raw oc top "{{ p }}" [ (b "p", vp_int) ] ~extra:[ "demanded", JS (hex "5") ];
-  raw oc top "{{ p }}" [ (b "p", vp_str) ] ~extra:[ "demanded", JS (hex "pointee") ];
-  raw oc top "a{{ p }}b{{ q }}" [ (b "p", VOpaque (nat_of_int 1)); (b "q", VOpaque (nat_of_int 2)) ] ~extra:[ "demanded", JS (hex "ab") ];
-  raw oc top "{{ l|join(',') }}" [ (b "l", VList (LAny, [ VInt (z_of_int 1); vp_int; VStr (b "x") ])) ] ~extra:[ "demanded", JS (hex "1,5,x") ];
-  raw oc top "{% for k, v in m %}{{ k }}={{ v }};{% endfor %}" [ (b "m", VMap (MAny, [ (VStr (b "b"), vp_int); (VStr (b "a"), VInt (z_of_int 1)); (VStr (b "c"), vp_str) ])) ]
-    ~extra:[ "demanded", JS (hex "a=1;b=5;c=pointee;") ];
-  raw oc top "{% macro f(a) %}x{% endmacro %}{{ f }}" [] ~extra:[ "demanded", JS (hex "") ];
-  raw oc top "{{ p ~ '' }}" [ (b "p", vp_int) ] ~extra:[ "demanded", JS (hex "5") ];
-  raw oc nested "{{ s }}" [ (b "s", st_ptr) ];
-  raw oc nested "{{ s }}" [ (b "s", VPtr (Some st_ptr)) ];
-  raw oc nested "{{ l }}" [ (b "l", VList (LAny, [ VInt (z_of_int 1); vp_int ])) ];
+(* model output with the address text masked the way the runner masks it *)
+let mask_pred ctx ns =
+  match pred_of (dt_render_now fuel (oracle []) (fun _ -> b "ADDR") ctx ns) with
+  | POut o -> [ "expmask", JS (hex o) ]
+  | _ -> []
+
+let address_cases oc r =
+  let top = "regress:toplevel-address" and nested = "known:nested-pointer" in
+  let pr x = [ NPrint (var x) ] in
+  (* repaired f21c703: a pointer prints its pointee, funcs and macro values print nothing *)
+  emit_model oc top r [ (b "p", vp_int) ] (pr "p");
+  emit_model oc top r [ (b "p", vp_str) ] (pr "p");
+  emit_model oc top r [ (b "p", VPtr (Some (VPtr (Some (VInt (z_of_int 9)))))) ] (pr "p");
+  emit_model oc top r [ (b "p", VOpaque (nat_of_int 1)); (b "q", VOpaque (nat_of_int 2)) ] [ txt "a"; NPrint (var "p"); txt "b"; NPrint (var "q") ];
+  emit_model oc top r [ (b "l", VList (LAny, [ VInt (z_of_int 1); vp_int; VStr (b "x") ])) ] [ NPrint (filt (var "l") "join" [ lit_s "," ]) ];
+  emit_model oc top r [ (b "m", VMap (MAny, [ (VStr (b "b"), vp_int); (VStr (b "a"), VInt (z_of_int 1)); (VStr (b "c"), vp_str) ])) ] [ kv_loop (var "m") ];
+  emit_model oc top r [ (b "p", VPtr None) ] [ txt "["; NPrint (var "p"); txt "]" ];
+  raw oc top "{% macro f(a) %}x{% endmacro %}{{ f }}" [] ~extra:[ "exp", JS (hex "") ];
+  raw oc top "{{ p ~ '' }}" [ (b "p", vp_int) ] ~extra:[ "exp", JS (hex "5") ];
+  (* still there: pointers below the top level go through fmt *)
+  let nest ctx ns = emit_render oc nested (pp_nodes ns) ctx (fun _ -> mask_pred ctx ns) (maxmap_of ctx ns) in
+  nest [ (b "s", st_ptr) ] (pr "s");
+  nest [ (b "s", VPtr (Some st_ptr)) ] (pr "s");
+  nest [ (b "l", VList (LAny, [ VInt (z_of_int 1); vp_int ])) ] (pr "l");
+  nest [ (b "l", VList (LAny, [ VStr (b "f"); VOpaque (nat_of_int 3); VPtr None ])) ] (pr "l");
   raw oc nested "{{ m }}" [ (b "m", VMap (MAny, [ (VStr (b "a"), vp_int); (VStr (b "b"), VInt (z_of_int 2)); (VStr (b "c"), vp_str) ])) ];
   raw oc nested "{{ dump(p) }}" [ (b "p", vp_int) ];
   raw oc nested "{{ m|join(',') }}" [ (b "m", VMap (MAny, [ (VStr (b "a"), vp_int); (VStr (b "b"), VInt (z_of_int 2)); (VStr (b "c"), VInt (z_of_int 2)) ])) ];
-  (* pointer-free relatives: must be deterministic *)
-  raw oc "oracle-only" "{{ s }}|{{ q }}" [ (b "s", st_plain); (b "q", VPtr (Some st_plain)) ];
+  (* pointer-free relatives: must be deterministic, and the model prints them *)
+  emit_model oc "fixed" r [ (b "s", st_plain); (b "q", VPtr (Some st_plain)) ] [ NPrint (var "s"); txt "|"; NPrint (var "q") ];
+  emit_model oc "fixed" r [ (b "l", VList (LAny, [ VInt (z_of_int 1); VNull; VStr (b "x"); VBool true ])); (b "e", VList (LStrings, [])) ] [ NPrint (var "l"); NPrint (var "e") ];
   raw oc "oracle-only" "{{ p }}|{{ q|json_encode }}" [ (b "p", VPtr None); (b "q", vp_int) ]
 
 let oracle_only_cases oc r =
@@ -407,6 +442,14 @@ let oracle_only_cases oc r =
   List.iter (fun s -> raw oc "oracle-only" ~tpls:inh s fixed_ctx) [
     "{% extends 'mid' %}{% block d %}d3{{ parent() }}{% endblock %}{% block c %}c3{% endblock %}{% block b %}b3{{ parent() }}{% endblock %}";
     "{% extends 'base' %}{% block a %}{% for k in n|keys %}{{ k }}.{% endfor %}{% endblock %}" ];
+  (* maps keyed by structs and by interface values of several kinds, 8 and more entries (the runner builds
+     map[struct{A int; B string}]string from type 9, map[interface{}]string with struct, int, string and bool keys from type 10) *)
+  let skm n = VMap (MIntStr, List.init n (fun i -> (VInt (z_of_int ((i * 5 + 3) mod 17)), VStr (b (Printf.sprintf "v%d" i))))) in
+  List.iter (fun (ty, n) ->
+    List.iter (fun src -> raw oc "oracle-only" src [ (b "m", VStruct (nat_of_int ty, [ (b "M", skm n) ])) ])
+      [ "{% for k, v in m %}{{ v }};{% endfor %}"; "{{ m|first }}|{{ m|keys|length }}|{% for v in m %}{{ v }}{% endfor %}";
+        "{% for k, v in m|merge({'zz': 1}) %}{{ k }}={{ v }};{% endfor %}"; "{% for k, v in merge(m, {'zz': 1}) %}{{ v }},{% endfor %}" ])
+    [ (9, 8); (9, 12); (10, 9); (10, 14) ];
   ignore r
 
 (* ---------------------------------------------------------------- date formats *)
@@ -426,14 +469,19 @@ let run ~seed ~tier oc =
     let ns = gen_nodes r ctx in
     emit_model oc "gen" r ctx ns
   done;
-  (* known classes *)
+  (* the classes that were repaired: now ordinary cases with one predicted output *)
   let dup_ctx = [ (b "m", m3); (b "s", VStr (b "x")) ] in
-  List.iter (fun ns -> emit_alts oc "known:hash-duplicate-key" dup_ctx ns ~demanded:(Some (render_flag false [] dup_ctx ns))) dup_templates;
-  List.iter (fun m -> List.iter (fun ns -> emit_alts oc "known:key-string-collision" [ (b "m", m) ] ns ~demanded:None) collide_templates) [ iface_map; iface_map2 ];
-  (* an interface-keyed map without colliding key strings is inside the theorem *)
+  List.iter (fun ns -> emit_model oc "regress:hash-duplicate-key" r dup_ctx ns) dup_templates;
+  List.iter (fun m -> List.iter (fun ns -> emit_model oc "regress:key-string-collision" r [ (b "m", m) ] ns) collide_templates) [ iface_map; iface_map2 ];
+  (* filterMerge stores the entries under the string form of their keys in the order of MapKeys() *)
+  List.iter (fun m -> List.iter (fun ns -> emit_alts oc "known:merge-filter-key-collision" [ (b "m", m); (b "n", m3) ] ns) merge_collide_templates) [ iface_map; iface_map2 ];
+  (* an interface-keyed map without colliding key strings *)
   let iface_ok = VMap (MAny, [ (VInt (z_of_int 3), VStr (b "three")); (VStr (b "x"), VStr (b "ex")); (VInt (z_of_int 20), VStr (b "twenty")); (VStr (b "100"), VStr (b "s100")) ]) in
-  List.iter (fun ns -> emit_model oc "fixed" r [ (b "m", iface_ok) ] ns) [ List.nth collide_templates 0; List.nth collide_templates 1; List.nth collide_templates 4 ];
-  address_cases oc;
+  List.iter (fun ns -> emit_model oc "fixed" r [ (b "m", iface_ok); (b "n", m3) ] ns) (collide_templates @ merge_collide_templates);
+  (* large interface-keyed maps *)
+  let big n = VMap (MAny, List.init n (fun i -> ((if i mod 2 = 0 then VInt (z_of_int (i * 7 mod 23)) else VStr (b (Printf.sprintf "k%02d" i))), VInt (z_of_int i)))) in
+  List.iter (fun n -> List.iter (fun ns -> emit_model oc "fixed" r [ (b "m", big n); (b "n", m3) ] ns) (collide_templates @ merge_collide_templates)) [ 8; 11; 16 ];
+  address_cases oc r;
   oracle_only_cases oc r;
   (* date formats: every string over the table's letters and - space backslash / : up to length 3 *)
   let letters = List.map s_of date_letters in
@@ -449,6 +497,15 @@ let run ~seed ~tier oc =
       Buffer.add_string buf (if rint r 4 = 0 then pick r others else pick r alphabet)
     done;
     emit_date oc "date-random" (Buffer.contents buf)
+  done;
+  (* many backslashes: a conversion that treats the backslash as an escape has many protected characters at once *)
+  for _ = 1 to (if thorough then 4000 else 300) do
+    let len = 6 + rint r 17 in
+    emit_date oc "date-escapes" (String.concat "" (List.init len (fun _ ->
+      match rint r 10 with
+      | 0 -> pick r alphabet
+      | 1 -> pick r [| "T"; "e"; " "; "-"; "0"; "1"; "9"; "10"; "\\\\" |]
+      | _ -> "\\" ^ pick r [| "d"; "D"; "a"; "t"; "T"; "Y"; "\\"; "1"; "0"; "m"; "s"; "h"; "o"; "n" |])))
   done;
   (* through the date filter with a fixed time value: the format is passed as a variable *)
   let fixedf = [ "D, d M Y"; "Y-m-d H:i:s"; "d/m/y"; "l jS F Y"; "g:i a"; "h:i A"; "j n y G"; "D"; "M"; "F j, Y"; "Ymd"; "His"; "d-M-Y H:i"; "l"; "aA"; "DMY"; "MDM"; "nnn"; "jjj"; "" ] in
